@@ -113,7 +113,7 @@ PROPS['C12'] = {
               {'mode': 'kernels', 'args': ['-seed', '{seed}', '-n', '300', '-driver', '{driver}', '-keep', '{keep}']}],  # integer branches, exact
     'assumptions': ['the float branch is validated per input (translation validation): every result of the real formula.* on the generated inputs is judged by the exact Lean certificate; accuracy of the Go float pipeline for ALL inputs is not proved',
                     'the four tolerances (Bancor.lean: result/2^k1 + scale/2^k2 + 1 pip) are measured maxima times 1000, fixed in the model, not derived'],
-    'claim_draft': "Partial. Lean theorems (MinterProofs/Props/C12.lean; for all supplies v>0, reserves R>0, amounts and CRR): the integer branches of formula.CalculateSaleReturn/PurchaseReturn/PurchaseAmount/SaleAmount (crr=100, amount 0, sell-all) are exact - range, monotonicity, sell-all = reserve, buy-then-sell never returns more than was paid (saleReturnInt_all/_range/_mono, purchaseReturnInt_mono, purchaseAmountInt_mono, saleAmountInt_mono, roundTripInt_*), and each integer result satisfies the exact certificate with tolerance 0 (*Int_cert). For the big.Float branch the theorems are about CERTIFIED results: whenever the decidable exact certificate (natural powers of integers, all bases guarded non-negative) accepts a claimed result r with tolerance d, then -d <= r, a sale returns at most R+d (v+d for saleAmount), results are monotone in the amount up to d+d', selling the whole supply returns the reserve, and buy-then-sell returns at most the payment plus the stated tolerance terms (*Cert_nonneg, *_le_reserve, *_le_supply, *Cert_mono, saleReturnCert_all/_zero, roundTrip_purchaseReturn_saleReturn, roundTrip_purchaseAmount_saleReturn); C12_partial bundles the eleven clauses for results accepted by exactly the predicates the driver evaluates. Tie (translation validation): mode bancor calls the real formula.Calculate* on generated inputs (reachable / wide / degenerate classes, every CRR 10..100, magnitudes up to 10^33 and beyond 2^100) and the Lean certificate, the exact range/monotonicity/sell-all monitors and the round-trip bounds judge every result; integer-branch results must be equal; mode kernels covers the integer kernels. Partial: that the Go float pipeline (big.Float prec 100, exponent passed as float64) satisfies the certificate for ALL inputs is not proved (needs a bit-exact model of math.Exp); tolerances are measured, not derived; no round-trip theorem for saleAmount on float results. Known finding: for reserves above 2^100 pip CalculateSaleReturn can return more than the reserve (and more than selling the whole supply), by at most 1024 pip.",
+    'claim_draft': "Partial. Lean theorems (MinterProofs/Props/C12.lean; for all supplies v>0, reserves R>0, amounts and CRR): the integer branches of formula.CalculateSaleReturn/PurchaseReturn/PurchaseAmount/SaleAmount (crr=100, amount 0, sell-all) are exact - range, monotonicity, sell-all = reserve, buy-then-sell never returns more than was paid (saleReturnInt_all/_range/_mono, purchaseReturnInt_mono, purchaseAmountInt_mono, saleAmountInt_mono, roundTripInt_*), and each integer result satisfies the exact certificate with tolerance 0 (*Int_cert). For the big.Float branch the theorems are about CERTIFIED results: whenever the decidable exact certificate (natural powers of integers, all bases guarded non-negative) accepts a claimed result r with tolerance d, then -d <= r, a sale returns at most R+d (v+d for saleAmount), results are monotone in the amount up to d+d', selling the whole supply returns the reserve, and buy-then-sell returns at most the payment plus the stated tolerance terms (*Cert_nonneg, *_le_reserve, *_le_supply, *Cert_mono, saleReturnCert_all/_zero, roundTrip_purchaseReturn_saleReturn, roundTrip_purchaseAmount_saleReturn); C12_partial bundles the eleven clauses for results accepted by exactly the predicates the driver evaluates. Tie (translation validation): mode bancor calls the real formula.Calculate* on generated inputs (reachable / wide / degenerate classes, every CRR 10..100, magnitudes up to 10^33 and beyond 2^100) and the Lean certificate, the exact range/monotonicity/sell-all monitors and the round-trip bounds judge every result; integer-branch results must be equal; mode kernels covers the integer kernels. Partial: that the Go float pipeline (big.Float prec 100, exponent passed as float64) satisfies the certificate for ALL inputs is not proved (needs a bit-exact model of math.Exp); tolerances are measured, not derived; no round-trip theorem for saleAmount on float results. Found by this check and repaired in /repo f522538 (F26): for reserves above 2^100 pip CalculateSaleReturn returned more than the reserve (and more than selling the whole supply), by at most 1024 pip; the Lean evaluator still tags that symptom (model=sale-return-exceeds-reserve / non-monotone-at-whole-supply) should it reappear.",
 }
 
 PROPS['C24'] = {
@@ -137,7 +137,7 @@ PROPS['C09'].update({
     'theorems': ['Minter.Persist.commit_flushes', 'Minter.Persist.restart_bisim', 'Minter.Persist.restart_bisim_initial'],
     'assumptions': ['state-module caches (order-book lists, candidates/stakes, dirty flags in state/*), IAVL node storage, goleveldb and the events DB contents are bound by the harness only (restart twins, crash mode: full exports, responses, hashes, LoadEvents compared)',
                     'OpsOK: no block sets the emission to 0 (SaveEmission writes emission.Bytes(), empty for 0, read back as nil: emission_zero_lost)'],
-    'claim_draft': "Lean theorems about the app-DB layer (MinterModel/Persist.lean: the eight persisted records, the Go struct's caches and dirty flags with exactly what each getter caches, the write sequence of Blockchain.Commit with its real guards, NewMinterBlockchain/initState lazy loads): after any block a restart from disk succeeds and every getter (Info height and hash, start height, validators, block-time delta, versions, emission, price) of the new process equals the running one, nothing is pending (commit_flushes); for every history with restarts inserted after any blocks, several in a row included, the list of all getter answers after every block equals that of the never-restarted node and both halt together (restart_bisim; restart_bisim_initial with a restart before the first block). Tie: Q commitorder (crash mode) compares the logged write sequence of every real Commit with the model's; restart twins (mode restart) and the mixed/staking/orders campaigns compare full exports, responses and app hashes of restarted and unrestarted real nodes. Partial: the state-module caches (order books, candidates, stakes), IAVL and goleveldb are outside the Lean model and covered by the twins only. Known finding (genesis boundary): InitChain calls updateValidators after the genesis commit, so a node restarted between InitChain and the first block executes that block on different state (other app hash) - reported by the crash mode as 'genesis-boundary: ...'.",
+    'claim_draft': "Lean theorems about the app-DB layer (MinterModel/Persist.lean: the eight persisted records, the Go struct's caches and dirty flags with exactly what each getter caches, the write sequence of Blockchain.Commit with its real guards, NewMinterBlockchain/initState lazy loads): after any block a restart from disk succeeds and every getter (Info height and hash, start height, validators, block-time delta, versions, emission, price) of the new process equals the running one, nothing is pending (commit_flushes); for every history with restarts inserted after any blocks, several in a row included, the list of all getter answers after every block equals that of the never-restarted node and both halt together (restart_bisim; restart_bisim_initial with a restart before the first block). Tie: Q commitorder (crash mode) compares the logged write sequence of every real Commit with the model's; restart twins (mode restart) and the mixed/staking/orders campaigns compare full exports, responses and app hashes of restarted and unrestarted real nodes. Partial: the state-module caches (order books, candidates, stakes), IAVL and goleveldb are outside the Lean model and covered by the twins only. Known finding (genesis boundary): InitChain calls updateValidators after the genesis commit, so a node restarted between InitChain and the first block executes that block on different state (other app hash) - reported by the crash mode with the prefix 'genesis-boundary:' (message contains 'first block after InitChain').",
 })
 PROPS['C09']['modes'] = PROPS['C09'].get('modes', []) + [
     # first block after InitChain (history 0 of the crash mode): restart between InitChain and the first block
@@ -182,7 +182,7 @@ PROPS['C16'] = {
     'campaigns': [camp('staking', 16, 200), camp('begin', 8, 60), camp('ledger', 8, 100)],
     'mismatch_counts': True,
     'assumptions': BEGIN_ASSUMPTIONS,
-    'claim_draft': "Lean theorems about the BeginBlock model (MinterModel/BeginBlock.lean: absences, byzantine punishment, maturity of frozen funds, in the order of Blockchain.BeginBlock) and the fund-creating side of Unbond/MoveStake/Lock/candidate removal, for all states, requests and oracle answers: after BeginBlock at h the frozen funds are the old ones (every field unchanged except a value cut once per matching punishment) plus remainder funds all due h+unbond, minus exactly the funds stored under h; no fund with another height is released and nothing returns earlier (frozen_released_only_when_due, not_due_survives, no_evidence_funds_untouched, due_fund_is_paid); per (owner, coin) the balance grows by exactly the owner's non-move funds stored under h and is unchanged without one (balances_only_matured, balance_unchanged_without_due_fund, unbond_to_balance); a matured move never reaches a balance but the updates of its target candidate with bip 0, and a missing target never yields a result (move_never_to_balance, moves_reach_target, move_needs_existing_target); funds are created due exactly at h+unbond (punishment remainder, candidate removal, Unbond), block+move (MoveStake, target must be an existing candidate, else code 403) and DueBlock (Lock); a locked stake cannot be unbonded (416) (leave_creates_frozen, removal_funds_due, unbond_due, move_due_and_target_exists, move_to_unknown_rejected, lock_due, locked_cannot_unbond). Tie: on every S begin the driver runs beginBlock on the node's live state before the block (votes and evidence as sent, grace recomputed from the start height and the version heights) and compares balances, frozen funds, stakes, pending updates, candidates, validators and pools with the node's live projection after it (MISMATCH C16/C18 begin ...); stakingTxMonitor ties the tx-side functions to every delivered Unbond/MoveStake/Lock/SetCandidateOn (accepted => the predicted fund is new; model rejects => node rejected; same code for 416/417/123/414); campaigns staking, begin (112 warm-up blocks so that the generated blocks straddle the end of the initial grace period, duplicated evidence) and ledger. Partial: the tx-side functions model only the C16-relevant validations (stake/waitlist sufficiency and commission belong to the transaction model); reward/price update, max gas and events are not in the BeginBlock model.",
+    'claim_draft': "Lean theorems about the BeginBlock model (MinterModel/BeginBlock.lean: absences, byzantine punishment, maturity of frozen funds, in the order of Blockchain.BeginBlock) and the fund-creating side of Unbond/MoveStake/Lock/candidate removal, for all states, requests and oracle answers: after BeginBlock at h the frozen funds are the old ones (every field unchanged except a value cut once per matching punishment) plus remainder funds all due h+unbond, minus exactly the funds stored under h; no fund with another height is released and nothing returns earlier (frozen_released_only_when_due, not_due_survives, no_evidence_funds_untouched, due_fund_is_paid); per (owner, coin) the balance grows by exactly the owner's non-move funds stored under h and is unchanged without one (balances_only_matured, balance_unchanged_without_due_fund, unbond_to_balance); a matured move never reaches a balance but the updates of its target candidate with bip 0, and a missing target never yields a result (move_never_to_balance, moves_reach_target, move_needs_existing_target); funds are created due exactly at h+unbond (punishment remainder, candidate removal, Unbond), block+move (MoveStake, target must be an existing candidate, else code 403) and DueBlock (Lock); a locked stake cannot be unbonded (416) (leave_creates_frozen, removal_funds_due, unbond_due, move_due_and_target_exists, move_to_unknown_rejected, lock_due, locked_cannot_unbond). Tie: on every S begin the driver runs beginBlock on the node's live state before the block (votes and evidence as sent, grace recomputed from the start height and the version heights) and compares balances, frozen funds, stakes, pending updates, candidates, validators and pools with the node's live projection after it (MISMATCH C16/C18 begin ...); stakingTxMonitor ties the tx-side functions to every delivered Unbond/MoveStake/Lock/SetCandidateOn (accepted => the predicted fund is new; model rejects => node rejected; same code for 416/417/123/414); campaigns staking, begin (112 warm-up blocks so that the generated blocks straddle the end of the initial grace period, duplicated evidence) and ledger. STALE since /repo 0ed8cf3 (F9 fix, made after this model was written): a matured move whose target candidate no longer exists is now re-frozen as an unbond due h+unbond instead of panicking; the model still predicts the panic (move_needs_existing_target), the driver reports that case as 'MISMATCH C16 begin ... model-predicts-panic ... go=continued' (not hit by the quick campaigns); matureOne and the statements frozen_released_only_when_due / not_due_survives / no_evidence_funds_untouched / due_fund_is_paid / move_needs_existing_target have to follow the new code before this is registered. Partial: the tx-side functions model only the C16-relevant validations (stake/waitlist sufficiency and commission belong to the transaction model); reward/price update, max gas and events are not in the BeginBlock model.",
 }
 PROPS['C18'] = {
     'level': 'proof', 'registered': False,
